@@ -30,3 +30,12 @@ claim('C03', 'proof',
       'Abstract interpretation of the MIR of every exported parse-side function of the lorawan crate (1380+ entry points incl. all six generated command sets, views, accessors, iterators, wire newtypes, text forms): every panic-capable site (bounds/overflow/div assertions, range slicing, copy_from_slice, unwrap/expect, explicit panics) is an obligation discharged in every analysed context by intervals + finite sets + linear constraints with per-variant facts; view-type invariants are inferred from all construction sites (sound by field privacy) and the data-frame layout invariant is checked at each construction; loops reach a fixpoint; iterator fusing/advance rules and absence of recursion checked on the CFG/call graph. All byte strings and lengths are symbolic: this is a proof over all inputs modulo the trusted base.',
       'Trusted base: rustc MIR construction; models of core/heapless/hex/aes-keyinit functions (lrs/absint_models.py); soundness of the abstract domains; field privacy of view types; entry exclusions are documented-contract functions (new_from_raw, parse_one, Crypto block callbacks, set_channel) analysed in all workspace calling contexts; sites depending only on caller-chosen indices / const generics are listed as preconditions.',
       'static analysis: abstract interpretation (intervals, value sets, linear constraints, variant-guarded facts) with inferred type invariants; proof obligations per panic site', 'DESIGN.md 4/C03', engine='lrs/absint')
+
+claim('C16', 'other',
+      'Interval abstract interpretation of BaseBandModulationParams::new / time_on_air_us (all SF x BW x CR x len x preamble x header as ranges, t_sym_us through the inferred invariant of the private field): every overflow / division obligation discharged, all casts value-preserving; monotonicity typing shows the result non-decreasing in len; the (n-1)/d+1 ceiling idiom is only allowed with numerator >= 1; shape of t_sym and of the airtime LDRO threshold. Decides these necessary conditions for all 42M parameter tuples; not value equality with the formula.',
+      'Trusted: rustc MIR construction, interval domain and models; with feature serde a deserialised t_sym_us is outside the quantifier.',
+      'static analysis: interval abstract interpretation + monotonicity typing + idiom/shape rules on MIR terms', 'DESIGN.md 4/C16', engine='lrs/absint')
+claim('C18', 'other',
+      'Abstract interpretation of the packet-fetch path (SX126x, SX127x incl. both variants by class-hierarchy join, LR11xx through the generic layer, LoRa::complete_rx/get_rx_result/rx, LorawanRadio::rx_single/rx_continuous) with all chip-reported bytes unconstrained: every bounds/slice/overflow/unwrap site discharged (payload_length <= buffer.len() proven at the slice); structural rules: single write through the caller buffer, slice [0..len], returned length = slice bound, length/offset provenance, error status before use, adapter and MAC front-end pass on exactly that length. For all status bytes; not the content equality of the copied bytes with the chip FIFO.',
+      'Trusted: rustc MIR construction incl. coroutine bodies; await modelled as a call that returns; embedded-hal bus traits return unconstrained data; foreign PhyRxTx impls must honour len <= buffer.len().',
+      'static analysis: abstract interpretation over async MIR (obligations) + SAME-VALUE / effect rules', 'DESIGN.md 4/C18', engine='lrs/absint')
